@@ -1,6 +1,7 @@
 package multiplex
 
 import (
+	"bytes"
 	"errors"
 	"fmt"
 	"io"
@@ -41,6 +42,7 @@ type rigOp struct {
 	Mode int    `json:"m,omitempty"` // deliver: 0 one record, 1 N permille of the head record, 2 everything pending on conn
 	D    int    `json:"d,omitempty"` // sleep ms
 	L    []int  `json:"l,omitempty"` // readfrom chunk sizes
+	Par  []rigOp `json:"par,omitempty"` // operations started in the same step, before quiescence is awaited
 }
 
 type rigScenario struct {
@@ -89,8 +91,13 @@ type rigStream struct {
 	closeAtAccepted int64
 
 	// datagram mode
-	dgSent [][]byte
-	dgGot  [][]byte
+	dgSent    [][]byte
+	dgMatched []bool
+	dgGot     [][]byte
+	shortBuf  int
+	lastShort bool
+	dgRefused int
+	dgRefusedIdx []int
 }
 
 type rigRecord struct {
@@ -122,7 +129,55 @@ type rig struct {
 	splits    int
 	nOpsDone  int
 
-	stOpenModel [2]int // model count of open streams per side (C12)
+	openErrs     int
+	acceptExited [2]bool
+}
+
+// modelOpen is the number of open streams a side must be counting, derived from the operations and the tap.
+// exact is false while a Stream.Close call is still in flight on that side (the counter changes inside it).
+func (r *rig) modelOpen(side int) (n int, exact bool) {
+	exact = true
+	r.mu.Lock()
+	for _, s := range r.streams[side] {
+		if s.closeBusy {
+			exact = false
+		}
+	}
+	r.mu.Unlock()
+	if side == sideC {
+		r.mu.Lock()
+		var ss []*rigStream
+		for _, s := range r.streams[sideC] {
+			ss = append(ss, s)
+		}
+		r.mu.Unlock()
+		for _, s := range ss {
+			_, pc := r.recvState(s.id, vk.BtoA)
+			if !s.closeCalled && !pc {
+				n++
+			}
+		}
+		return n, exact
+	}
+	seen := map[uint32]bool{}
+	for li := range r.links {
+		for _, rec := range r.records(li, vk.AtoB) {
+			if rec.ok && rec.closing != closingSession && rec.end <= r.delivered[vk.AtoB][li] {
+				seen[rec.sid] = true
+			}
+		}
+	}
+	for sid := range seen {
+		_, pc := r.recvState(sid, vk.AtoB)
+		r.mu.Lock()
+		s := r.streams[sideS][sid]
+		r.mu.Unlock()
+		if pc || (s != nil && s.closeCalled) {
+			continue
+		}
+		n++
+	}
+	return n, exact
 }
 
 func (r *rig) label(l string) { r.labels[l] = true }
@@ -195,6 +250,9 @@ func (r *rig) acceptLoop(side int) {
 	for {
 		c, err := r.sesh[side].Accept()
 		if err != nil {
+			r.mu.Lock()
+			r.acceptExited[side] = true
+			r.mu.Unlock()
 			return
 		}
 		st := c.(*Stream)
@@ -380,7 +438,22 @@ func (r *rig) peerOf(s *rigStream) *rigStream {
 func (r *rig) onRead(s *rigStream, res ioRes) error {
 	if res.n > 0 {
 		if r.cfg.Unordered {
-			s.dgGot = append(s.dgGot, append([]byte(nil), res.buf[:res.n]...))
+			d := append([]byte(nil), res.buf[:res.n]...)
+			s.dgGot = append(s.dgGot, d)
+			peer := r.peerOf(s)
+			found := false
+			if peer != nil {
+				for i, sent := range peer.dgSent {
+					if !peer.dgMatched[i] && bytes.Equal(sent, d) {
+						peer.dgMatched[i] = true
+						found = true
+						break
+					}
+				}
+			}
+			if !found {
+				return vk.Violatef("stream %d side %d: read returned a %d-byte message that is not one of the (not yet delivered) datagrams written on this stream: merged, split, truncated, duplicated or foreign", s.id, s.side, len(d))
+			}
 		} else {
 			tag := rigTag(s.id, 1-s.side)
 			for i := 0; i < res.n; i++ {
@@ -400,11 +473,17 @@ func (r *rig) onRead(s *rigStream, res ioRes) error {
 		s.got += int64(res.n)
 	}
 	if res.err != nil {
+		if res.err == io.ErrShortBuffer && r.cfg.Unordered {
+			s.shortBuf++
+			s.lastShort = true
+			return nil
+		}
 		s.rdErrs++
 		if s.rdErr == nil {
 			s.rdErr = res.err
 		}
 	}
+	s.lastShort = false
 	return nil
 }
 
@@ -424,6 +503,14 @@ func (r *rig) onWrite(s *rigStream, res ioRes) {
 		}
 	} else {
 		s.accepted += int64(res.n)
+		if r.cfg.Unordered && len(s.dgSent) > 0 {
+			// a refused datagram must never show up at the peer
+			s.dgRefusedIdx = append(s.dgRefusedIdx, len(s.dgSent)-1)
+			s.dgRefused++
+			if res.err == io.ErrShortBuffer {
+				return
+			}
+		}
 		if s.wrErr == nil {
 			s.wrErr = res.err
 		}
@@ -466,6 +553,7 @@ func (r *rig) startWrite(s *rigStream, size int) {
 		idx := len(s.dgSent)
 		vFill(data, rigTag(s.id, s.side)^(uint64(idx+1)*0x9E37), 0)
 		s.dgSent = append(s.dgSent, data)
+		s.dgMatched = append(s.dgMatched, false)
 	} else {
 		data = make([]byte, size)
 		vFill(data, rigTag(s.id, s.side), uint64(s.attempted))
@@ -537,8 +625,22 @@ func (r *rig) startClose(s *rigStream) {
 	go func() { ch <- st.Close() }()
 }
 
-// step executes one op and waits for quiescence.
+// step executes one op (and its companions) and waits for quiescence.
 func (r *rig) step(op rigOp) error {
+	if err := r.start(op); err != nil {
+		return err
+	}
+	for _, p := range op.Par {
+		if err := r.start(p); err != nil {
+			return err
+		}
+	}
+	synctest.Wait()
+	r.nOpsDone++
+	return r.poll()
+}
+
+func (r *rig) start(op rigOp) error {
 	switch op.K {
 	case "open":
 		if op.Side != sideC {
@@ -546,6 +648,7 @@ func (r *rig) step(op rigOp) error {
 		}
 		st, err := r.sesh[sideC].OpenStream()
 		if err != nil {
+			r.openErrs++
 			if r.faulted || r.sesh[sideC].IsClosed() || r.cfg.Singleplex {
 				return nil
 			}
@@ -584,10 +687,13 @@ func (r *rig) step(op rigOp) error {
 		time.Sleep(time.Duration(op.D) * time.Millisecond)
 	case "addconn":
 		r.addLink()
+	case "limit":
+		for _, l := range r.links {
+			l.SetLimit(vk.AtoB, op.N)
+			l.SetLimit(vk.BtoA, op.N)
+		}
 	}
-	synctest.Wait()
-	r.nOpsDone++
-	return r.poll()
+	return nil
 }
 
 // drain delivers everything and reads until nothing moves any more.
@@ -674,6 +780,17 @@ func (r *rig) recvState(id uint32, d vk.Dir) (handed int64, closeProcessed bool)
 				bySeq[rec.seq] = rec
 			}
 		}
+	}
+	if r.cfg.Unordered {
+		// datagram mode: no reordering; a closing frame takes effect on arrival
+		for _, rec := range bySeq {
+			if rec.closing == closingStream {
+				closeProcessed = true
+			} else {
+				handed += int64(rec.plen)
+			}
+		}
+		return handed, closeProcessed
 	}
 	for seq := uint64(0); ; seq++ {
 		rec, ok := bySeq[seq]
